@@ -6,11 +6,13 @@ import (
 	"io"
 	"log/slog"
 	"os"
+	"strings"
 	"sync/atomic"
 	"testing"
 	"testing/synctest"
 	"time"
 
+	"github.com/bits-and-blooms/bitset"
 	"github.com/gordian-engine/gordian/gassert/gasserttest"
 	"github.com/gordian-engine/gordian/gcrypto"
 	"github.com/gordian-engine/gordian/gwatchdog"
@@ -455,6 +457,17 @@ func (s *sim) drain(who int, max int) int {
 			break
 		}
 		n++
+		if n >= 3000 {
+			// no input is pending, yet the kernel keeps producing output
+			last := ""
+			if who == 0 && len(s.smRecv) >= 2 {
+				last = fmt.Sprintf("; the last two are identical: %v", s.smRecv[len(s.smRecv)-1].Digest == s.smRecv[len(s.smRecv)-2].Digest)
+			} else if who == 1 && len(s.gsRecv) >= 2 {
+				last = fmt.Sprintf("; the last two are identical: %v", s.gsRecv[len(s.gsRecv)-1].Digest == s.gsRecv[len(s.gsRecv)-2].Digest)
+			}
+			s.failf("", "output-never-quiescent", "with no input pending, consumer %d (0 state machine, 1 gossip) received %d successive views%s", who, n, last)
+			break
+		}
 	}
 	return n
 }
@@ -482,7 +495,7 @@ func (s *sim) drainAll() {
 		if !s.gsStalled && s.drain(1, -1) > 0 {
 			progressed = true
 		}
-		if !progressed {
+		if !progressed || s.fail != nil {
 			return
 		}
 	}
@@ -562,6 +575,10 @@ func runSim(t *testing.T, c simCase, own ownership, setup func(s *sim)) (out *si
 				return
 			}
 			if traceOn {
+				fmt.Fprintf(os.Stderr, "TRACE    view pv=%s pc=%s\n", traceProofs(s.vv.PrevoteProofs), traceProofs(s.vv.PrecommitProofs))
+				if _, pv, pc, err := s.d.rs.LoadRoundState(context.Background(), s.vv.Height, s.vv.Round); err == nil {
+					fmt.Fprintf(os.Stderr, "TRACE    store pv=%s pc=%s\n", traceSparse(pv.BlockSignatures), traceSparse(pc.BlockSignatures))
+				}
 				fmt.Fprintf(os.Stderr, "TRACE step %d op=%+v -> voting %d/%d (v%d, %d phs) committing %d/%d phres=%v voteres=%v excl=%v alive=%v\n", i, op, s.vv.Height, s.vv.Round, s.vv.Version, len(s.vv.ProposedHeaders), s.cv.Height, s.cv.Round, s.lastPHRes, s.lastVoteRes, s.excluded, s.alive)
 			}
 			if s.afterOp != nil {
@@ -666,4 +683,26 @@ func (s *sim) exec(op Op) {
 	default:
 		panic("unknown op kind " + op.K)
 	}
+}
+
+func traceProofs(m map[string]gcrypto.CommonMessageSignatureProof) string {
+	var sb strings.Builder
+	for _, k := range sortedKeys(m) {
+		var bs bitset.BitSet
+		m[k].SignatureBitSet(&bs)
+		fmt.Fprintf(&sb, "[%s:%s]", hx([]byte(k)), bs.String())
+	}
+	return sb.String()
+}
+
+func traceSparse(m map[string][]gcrypto.SparseSignature) string {
+	var sb strings.Builder
+	for _, k := range sortedKeys(m) {
+		fmt.Fprintf(&sb, "[%s:", hx([]byte(k)))
+		for _, sg := range m[k] {
+			fmt.Fprintf(&sb, "%x ", sg.KeyID)
+		}
+		sb.WriteString("]")
+	}
+	return sb.String()
 }
